@@ -387,6 +387,7 @@ type Exec struct {
 	heldEntry  string           // HELD at function entry (from the lock clauses)
 	heldEmitted bool
 	acqCount   int
+	noLpCheck  bool // re-acquisition inside sync.Cond.Wait: same logical critical section
 	curMuOwner string // type key of the struct whose mutex field is being locked/unlocked ("" = not a field)
 }
 
